@@ -411,6 +411,36 @@ package main
 //@   after call NewArmorEncoder ghost armorOpen = ret1 == nil
 //@   ensures {armor-is-completed} armorOpen ==> calls(Close) == 1
 //
+// The remaining endpoints (C14): /robots.txt, /metrics and /debug perform exactly one response action for ANY request
+// (method, headers and body are never looked at); the two wrappers answer a CORS preflight themselves and hand every
+// other request to the endpoint function exactly once.
+//@ func robotsTxtHandler(w http.ResponseWriter, r *http.Request)
+//@   props C14
+//@   requires w != nil
+//@   ensures {exactly-one-response-action} calls(Write) == 1 && calls(WriteHeader) == 0
+//
+//@ func metricsHandler(metricsFilename string, w http.ResponseWriter, r *http.Request)
+//@   props C14
+//@   requires w != nil && r != nil
+//@   ensures {exactly-one-response-action} calls(NotFound) + calls(Copy) == 1
+//
+//@ func debugHandler(i *IPC, w http.ResponseWriter, r *http.Request)
+//@   props C14
+//@   requires i != nil && i.ctx != nil && w != nil
+//@   ensures {exactly-one-response-action} calls(WriteHeader) + calls(Write) == 1
+//
+//@ func (sh SnowflakeHandler) ServeHTTP(w http.ResponseWriter, r *http.Request)
+//@   props C14
+//@   requires w != nil && r != nil
+//@   assumes sh.handle != nil
+//@   ensures {preflight-answered-here-everything-else-handed-on-once} (old(r.Method) == "OPTIONS" ==> calls(handle) == 0) && (old(r.Method) != "OPTIONS" ==> calls(handle) == 1)
+//
+//@ func (mh MetricsHandler) ServeHTTP(w http.ResponseWriter, r *http.Request)
+//@   props C14
+//@   requires w != nil && r != nil
+//@   assumes mh.handle != nil
+//@   ensures {preflight-answered-here-everything-else-handed-on-once} (old(r.Method) == "OPTIONS" ==> calls(handle) == 0) && (old(r.Method) != "OPTIONS" ==> calls(handle) == 1)
+//
 // ---- Prometheus label sets (C14) ----
 // A vector's With panics (inside the Prometheus client, or in RoundedCounterVec.With) unless the label map it is given
 // has exactly the label names the vector was created with. The names are fixed by initPrometheus; every use in a
